@@ -63,6 +63,22 @@ class PywtC:
         return _Coeffs(data, PywtC._wkey(data.shape, wavelet, mode, axes, level), _ax(axes))
 
     @staticmethod
+    def dwtn_max_level(shape, wavelet, axes=None):
+        """assumed contract: a non-negative integer determined by (shape, wavelet, axes)"""
+        key = _key("maxlevel", wavelet, _ax(axes))
+        f = z3.Function("pywt.%s" % key, *([z3.IntSort()] * len(shape) + [z3.IntSort()]))
+        r = f(*[core._lift(S(e)) for e in shape])
+        core.define(r >= 0)
+        return Sym(r)
+
+    @staticmethod
+    def dwt_max_level(data_len, filter_len):
+        f = z3.Function("pywt.dwt_max_level", z3.IntSort(), z3.IntSort(), z3.IntSort())
+        r = f(core._lift(S(data_len)), core._lift(S(filter_len)))
+        core.define(r >= 0)
+        return Sym(r)
+
+    @staticmethod
     def coeffs_to_array(coeffs, padding=0, axes=None):
         if _ax(axes) != coeffs.axes:
             raise snp.SValueError("coeffs_to_array: axes differ from the axes the coefficients were computed along")
